@@ -27,12 +27,87 @@ fn parse_steps(v: &Value) -> Vec<Step> {
         .collect()
 }
 
+thread_local! {
+    /// the property the replay is deciding: C20 (bit-for-bit agreement of all ingestion paths), or
+    /// C08 / C09 / C17, which judge the ingested estimator by their own, weaker predicate (an
+    /// ingestion path that differs from the add loop in the last bit violates C20 but not them)
+    static PROP: RefCell<String> = RefCell::new("C20".to_string());
+}
+
+fn prop() -> String {
+    PROP.with(|p| p.borrow().clone())
+}
+
 fn viol(rep: &mut Report, ty: &str, e: &str, line: &Value, acc: &str, what: String) {
+    let p = prop();
     rep.violation(json!({
-        "property": "C20", "family": "ingest", "type": ty, "embedding": e,
+        "property": p, "family": "ingest", "type": ty, "embedding": e,
         "history": line["steps"], "accessor": acc, "what": what,
-        "signature": format!("C20|{}|{}", ty, acc),
+        "signature": format!("{}|{}|{}", p, ty, acc),
     }));
+}
+
+/// C08 / C09 on an ingestion path: both the ingested estimator and the add loop must be within
+/// the property's envelope of the exact statistic, so they may differ by at most twice that.  On
+/// the well-conditioned E0 data (small integers, kappa < 10, n <= 6, weights in [0.17, 3]) every
+/// envelope of the property is below 1e-12 relative to max(|statistic|, 1).
+fn cmp_obs_tol(a: &[(String, Option<u64>)], b: &[(String, Option<u64>)]) -> Option<String> {
+    if a.len() != b.len() {
+        return Some("different accessor lists".into());
+    }
+    for (x, y) in a.iter().zip(b) {
+        let ok = match (x.1, y.1) {
+            (None, None) => true,
+            (Some(p), Some(q)) => {
+                let (p, q) = (f64::from_bits(p), f64::from_bits(q));
+                (p.is_nan() && q.is_nan()) || p == q || (p - q).abs() <= 1e-9 * p.abs().max(q.abs()).max(1.0)
+            }
+            _ => false,
+        };
+        if !ok {
+            let f = |v: Option<u64>| v.map(|v| fmt_f(f64::from_bits(v))).unwrap_or("panic".into());
+            return Some(format!("{}: {} (ingestion path) vs {} (add loop): further apart than twice the envelope", x.0, f(x.1), f(y.1)));
+        }
+    }
+    None
+}
+
+/// C17 on an ingested pair estimator, from the data it was fed
+fn c17_pair(acc: &str, obs: Option<f64>, data: &[(f64, f64)], weighted: bool) -> Option<String> {
+    let n = data.len() as f64;
+    if data.is_empty() {
+        return None;
+    }
+    let sumw: f64 = data.iter().map(|p| p.1).sum();
+    let range = |xs: Vec<f64>| -> (f64, f64, f64) {
+        let lo = xs.iter().cloned().fold(f64::INFINITY, f64::min);
+        let hi = xs.iter().cloned().fold(f64::NEG_INFINITY, f64::max);
+        (lo, hi, 8.0 * n * U * lo.abs().max(hi.abs()))
+    };
+    let inside = |o: Option<f64>, r: (f64, f64, f64), what: &str| match o {
+        Some(v) if v >= r.0 - r.2 && v <= r.1 + r.2 => None,
+        v => Some(format!("{what} must lie in [{:e}, {:e}], observed {:?}", r.0, r.1, v)),
+    };
+    let nonneg = |o: Option<f64>| match o {
+        Some(v) if v >= 0.0 => None,
+        v => Some(format!("must be >= 0, observed {:?}", v)),
+    };
+    match acc {
+        "population_variance" | "population_variance_x" | "population_variance_y" => nonneg(obs),
+        "sample_variance" | "sample_variance_x" | "sample_variance_y" if data.len() >= 2 => nonneg(obs),
+        "variance_of_weighted_mean" | "error" if data.len() >= 2 && sumw > 0.0 => nonneg(obs),
+        "weighted_mean" if weighted && sumw > 0.0 => inside(obs, range(data.iter().filter(|p| p.1 > 0.0).map(|p| p.0).collect()), "the weighted mean"),
+        "unweighted_mean" | "mean_x" => inside(obs, range(data.iter().map(|p| p.0).collect()), "the mean"),
+        "mean_y" => inside(obs, range(data.iter().map(|p| p.1).collect()), "the mean"),
+        "effective_len" if sumw > 0.0 => {
+            let rel = n * (2.0f64).powi(-50);
+            match obs {
+                Some(o) if o >= 1.0 - rel && o <= n * (1.0 + rel) => None,
+                o => Some(format!("effective_len must lie in [1, {}], observed {:?}", n, o)),
+            }
+        }
+        _ => None,
+    }
 }
 
 fn cmp_obs(a: &[(String, Option<u64>)], b: &[(String, Option<u64>)]) -> Option<String> {
@@ -180,14 +255,22 @@ fn pair_bits<T: PairT>(t: &T) -> Vec<(String, Option<u64>)> {
     v.into_iter().map(|(a, x)| (a.to_string(), x.map(bits))).collect()
 }
 
-fn run_pair<T: PairT>(steps: &[Step], line: &Value, e: &Embedding, rep: &mut Report) {
+fn run_pair<T: PairT>(steps: &[Step], line: &Value, e: &Embedding, pattern: usize, rep: &mut Report) {
     rep.replays += 1;
-    // second coordinate derived from position and value (weights >= 0, zero included)
+    // second coordinate derived from position and value (weights >= 0, zero included); pattern 1
+    // starts every history with two weightless observations (an estimator that is non-empty but
+    // has no weight yet when the next piece arrives)
     let mut pos = 0usize;
     let mut f = |xs: &[i64]| -> Vec<(f64, f64)> {
         xs.iter()
             .map(|&v| {
-                let w = [1.0, 0.0, 0.17, 2.5, 0.27][(pos + (v + 3) as usize) % 5];
+                let w = if pattern == 0 {
+                    [1.0, 0.0, 0.17, 2.5, 0.27][(pos + (v + 3) as usize) % 5]
+                } else if pos < 2 {
+                    0.0
+                } else {
+                    [0.5, 0.0, 3.0][(pos + (v + 3) as usize) % 3]
+                };
                 pos += 1;
                 (e.x(v), w)
             })
@@ -195,6 +278,7 @@ fn run_pair<T: PairT>(steps: &[Step], line: &Value, e: &Embedding, rep: &mut Rep
     };
     let mut obj: Option<T> = None;
     let mut reference = T::new();
+    let mut all: Vec<(f64, f64)> = Vec::new();
     for s in steps {
         let xs = f(&s.xs);
         for &(a, b) in &xs {
@@ -210,13 +294,34 @@ fn run_pair<T: PairT>(steps: &[Step], line: &Value, e: &Embedding, rep: &mut Rep
             "add" => obj.as_mut().unwrap().add(xs[0].0, xs[0].1),
             k => panic!("step {k}"),
         }
+        if matches!(s.kind.as_str(), "collect_val" | "collect_ref" | "new" | "default") {
+            all.clear();
+        }
+        all.extend(&xs);
     }
     if let Some(obj) = obj {
         let a = pair_bits(&obj);
         let b = pair_bits(&reference);
         rep.evaluations += a.len() as u64;
-        if let Some(d) = cmp_obs(&a, &b) {
-            viol(rep, T::NAME, e.name, line, "ingestion", d);
+        let label = format!("{}/w{}", e.name, pattern);
+        match prop().as_str() {
+            "C17" => {
+                for (acc, v) in &a {
+                    if let Some(w) = c17_pair(acc, v.map(f64::from_bits), &all, T::NAME != "Covariance") {
+                        viol(rep, T::NAME, &label, line, acc, w);
+                    }
+                }
+            }
+            "C08" | "C09" => {
+                if let Some(d) = cmp_obs_tol(&a, &b) {
+                    viol(rep, T::NAME, &label, line, "ingestion", d);
+                }
+            }
+            _ => {
+                if let Some(d) = cmp_obs(&a, &b) {
+                    viol(rep, T::NAME, &label, line, "ingestion", d);
+                }
+            }
         }
     }
 }
@@ -404,7 +509,8 @@ fn run_concat(steps: &[Step], line: &Value, e: &Embedding, rep: &mut Report) {
     }
 }
 
-pub fn process_line(v: &Value, rep: &mut Report) {
+pub fn process_line(v: &Value, want_prop: &str, rep: &mut Report) {
+    PROP.with(|p| *p.borrow_mut() = want_prop.to_string());
     let steps = parse_steps(&v["steps"]);
     let hs = hash_str(&v["steps"].to_string());
     rep.behaviours += 1;
@@ -418,21 +524,31 @@ pub fn process_line(v: &Value, rep: &mut Report) {
     if rep.nontrivial.contains(&hs) {
         rep.sample(json!({"steps": v["steps"], "meaning_add_loop": v["data"]}));
     }
-    for e in embeddings(&["E0", "E5"]) {
+    // C08 / C09 / C17 judge by their own predicates, on the well-conditioned embedding only
+    let embs: &[&str] = if want_prop == "C20" { &["E0", "E5"] } else { &["E0"] };
+    for e in embeddings(embs) {
         let r = std::panic::catch_unwind(std::panic::AssertUnwindSafe(|| {
             let rep = &mut *rep;
-        run_mom::<average::Mean>(&steps, v, &e, rep);
-        run_mom::<average::Variance>(&steps, v, &e, rep);
-        run_mom::<average::Skewness>(&steps, v, &e, rep);
-        run_mom::<average::Kurtosis>(&steps, v, &e, rep);
-        run_mom::<average::Moments4>(&steps, v, &e, rep);
-        run_mom::<m5::M5>(&steps, v, &e, rep);
-        run_mom::<m10::M10>(&steps, v, &e, rep);
-        run_minmax(&steps, v, &e, rep);
-        run_pair::<average::WeightedMean>(&steps, v, &e, rep);
-        run_pair::<average::WeightedMeanWithError>(&steps, v, &e, rep);
-        run_pair::<average::Covariance>(&steps, v, &e, rep);
-        run_concat(&steps, v, &e, rep);
+            if want_prop == "C20" {
+                run_mom::<average::Mean>(&steps, v, &e, rep);
+                run_mom::<average::Variance>(&steps, v, &e, rep);
+                run_mom::<average::Skewness>(&steps, v, &e, rep);
+                run_mom::<average::Kurtosis>(&steps, v, &e, rep);
+                run_mom::<average::Moments4>(&steps, v, &e, rep);
+                run_mom::<m5::M5>(&steps, v, &e, rep);
+                run_mom::<m10::M10>(&steps, v, &e, rep);
+                run_minmax(&steps, v, &e, rep);
+                run_concat(&steps, v, &e, rep);
+            }
+            for pattern in 0..2 {
+                if want_prop != "C09" {
+                    run_pair::<average::WeightedMean>(&steps, v, &e, pattern, rep);
+                    run_pair::<average::WeightedMeanWithError>(&steps, v, &e, pattern, rep);
+                }
+                if want_prop != "C08" {
+                    run_pair::<average::Covariance>(&steps, v, &e, pattern, rep);
+                }
+            }
         }));
         if r.is_err() {
             viol(rep, "ingest", e.name, v, "panic", "the code under test panicked on an ingestion path".into());
